@@ -2,7 +2,7 @@
 From Coq Require Import Reals ZArith List QArith Lra.
 From Coquelicot Require Import Coquelicot.
 From EsVerif.Common Require Import Base.
-From EsVerif.C11 Require Import Gen Model Spec Proofs ProofsV Cert.
+From EsVerif.C11 Require Import Gen Model ModelF Spec Proofs ProofsV ProofsL Cert.
 Import ListNotations.
 
 (* ================================================================ parameter normalisation *)
@@ -95,6 +95,87 @@ Proof. intros. apply dispatch1_elementwise. Qed.
 Theorem C11_distmod_elementwise : forall (A B C : Type) (dl : A -> A -> B) (post : B -> C) zero z,
   distmod_dispatch dl post zero z = Ok (dispatch1 (fun x => post (dl zero x)) z).
 Proof. intros. apply distmod_dispatch_elementwise. Qed.
+
+(* ================================================================ proof-deepening round: the C loops *)
+(* The vector entry points of cosmolib_pywrap.c are loops `for (i=0;i<n;i++) res[i] = f(a or a[i], b or b[i])` over a
+   zero-initialised array.  Modelled as such (sequential writes with set_nth), the loop puts f at its own index into every
+   slot and writes nothing else ... *)
+Theorem C11_c_loop_slots : forall (B : Type) (zero : B) (body : nat -> B) n,
+  length (c_loop n 0 body (repeat zero n)) = n /\
+  forall i d, (i < n)%nat -> nth i (c_loop n 0 body (repeat zero n)) d = body i.
+Proof. intros B. exact (@c_loop_slots B). Qed.
+
+(* ... hence the Python dispatch with the three C wrappers plugged in (flags regenerated from the C source, Gen.WRAP_...)
+   IS the element-wise model dispatch2 of C11_dispatch_elementwise, for every argument shape *)
+Theorem C11_vector_loops_are_elementwise : forall (A B : Type) (d : A) (zero : B) (f : A -> A -> B) (a b : zarg A),
+  dispatch2_c d zero W_vec1 W_vec2 W_2vec f a b = dispatch2 f a b.
+Proof. intros A B. exact (@dispatch2_c_is_dispatch2 A B). Qed.
+
+Theorem C11_vector_loop1_is_map : forall (A B : Type) (d : A) (zero : B) (g : A -> B) xs,
+  run_wrapper1 d zero g xs = map g xs.
+Proof. intros A B. exact (@wrapper1_is_map A B). Qed.
+
+(* a wrapper that sizes the loop by the wrong array or reads an argument through a stale / wrong slot is NOT element-wise *)
+Example C11_wrong_wrapper_differs :
+  run_wrapper 0%Z 0%Z (mkW KIndexed KIndexed false) Z.add (Ar [1; 2]%Z) (Ar [10; 20; 30]%Z) <> two_vec Z.add [1; 2]%Z [10; 20; 30]%Z
+  /\ run_wrapper 0%Z 0%Z (mkW KScalar KIndexed true) Z.add (Ar [1; 2]%Z) (Ar [10; 20]%Z) <> two_vec Z.add [1; 2]%Z [10; 20]%Z.
+Proof. exact wrong_wrapper_differs. Qed.
+
+(* exactly which calls are rejected, and with which error class *)
+Theorem C11_dispatch_rejects_exactly : forall (A B : Type) (f : A -> A -> B) (a b : zarg A) e,
+  dispatch2 f a b = Err e <-> exists xs ys, a = Ar xs /\ b = Ar ys /\ length xs <> length ys /\ e = EValue.
+Proof. intros A B. exact (@dispatch2_rejects_iff A B). Qed.
+
+(* the boolean checkers evaluated on the implementation's outputs are complete as well as sound: they decide the property *)
+Theorem C11_checkers_complete :
+  (forall o, identities o -> identities_b o = true)
+  /\ (forall f a b out, elementwise2 f a b out -> elementwise2_b f a b out = true)
+  /\ (forall g a out, elementwise1 g a out -> elementwise1_b g a out = true).
+Proof. split; [exact identities_b_complete|]. split; [exact elementwise2_b_complete|exact elementwise1_b_complete]. Qed.
+
+(* ================================================================ proof-deepening round: history *)
+(* A process holding several cosmologies (new / clone / re-initialise / drop / any method call).  The model's answers do not
+   depend on the history: a step leaves every handle it does not target unchanged, a new object is the same whatever was built
+   before, and whatever a method returns on a handle is unchanged by any steps that do not re-initialise or drop that handle. *)
+Section History.
+  Context {num : Type}.
+  Variables (zero one h_scale clight : num) (sub mul div : num -> num -> num) (is_zero : num -> bool).
+  Notation run := (hrun zero one h_scale clight sub mul div is_zero).
+  Notation run1 := (hrun1 zero one h_scale clight sub mul div is_zero).
+
+  Theorem C11_history_frame : forall (s : store) (l : list hstep) j,
+    (j < length s)%nat -> forallb (fun st => negb (targets st j)) l = true -> hget (run s l) j = hget s j.
+  Proof. intros s l j. apply hrun_frame. Qed.
+
+  Theorem C11_history_new_independent : forall (s : store) a,
+    hget (run1 s (HNew a)) (length s) = Some (construct zero one h_scale clight sub mul div is_zero a).
+  Proof. exact (hnew_independent zero one h_scale clight sub mul div is_zero). Qed.
+
+  Theorem C11_history_observe_free : forall (T : Type) (dist : num -> bool -> num -> num -> num -> T) (s : store) l j,
+    (j < length s)%nat -> forallb (fun st => negb (targets st j)) l = true ->
+    hobserve dist (run s l) j = hobserve dist s j.
+  Proof. intros T dist s l j. apply hobserve_history_free. Qed.
+End History.
+
+Example C11_history_nonvacuous :
+  let s := hrun 0%Z 1%Z 100%Z 300000%Z Z.sub Z.mul Z.div (Z.eqb 0) []
+             [HNew (mkArgs 100 None true 3 7 None); HNew (mkArgs 100 (Some 7) true 3 7 None); HClone 0 OpPickle;
+              HReinit 1 (mkArgs 50 None false 3 7 (Some 2)); HDel 2]%Z in
+  hobserve (fun DH _ _ _ _ => DH) s 0 = Some 3000%Z /\ hobserve (fun DH _ _ _ ok => (DH, ok)) s 1 = Some (6000, 2)%Z
+  /\ hobserve (fun DH _ _ _ _ => DH) s 2 = None.
+Proof. vm_compute. repeat split. Qed.
+
+(* reachable states: whatever sequence of constructions / clones / re-initialisations / drops a process performs, every object
+   it holds reports the parameters of a plain constructor call; hence the normalisation rules hold for every such object *)
+Section Reachable.
+  Context {num : Type}.
+  Variables (zero one h_scale clight : num) (sub mul div : num -> num -> num) (is_zero : num -> bool).
+  Hypothesis zero_is_zero : is_zero zero = true.
+  Theorem C11_reachable_objects_report_constructed : forall (l : list hstep) j o,
+    hget (hrun zero one h_scale clight sub mul div is_zero [] l) j = Some o ->
+    exists a, reported o = reported (construct zero one h_scale clight sub mul div is_zero a).
+  Proof. exact (reachable_reports_constructed zero one h_scale clight sub mul div is_zero zero_is_zero). Qed.
+End Reachable.
 
 (* ================================================================ identities of the chain *)
 Local Open Scope R_scope.
@@ -233,3 +314,56 @@ Proof.
   - unfold mirror. simpl. repeat split. repeat (f_equal; try lra).
   - unfold gl_sum. simpl. lra.
 Qed.
+
+Import PrimFloat.
+Local Close Scope R_scope.
+(* ================================================================ proof-deepening round: the binary64 model *)
+(* identities that hold bit for bit in the binary64 chain (no rounding involved): flat Dm IS Dc, Da / Dl are Dm divided /
+   multiplied by (1+z), Sigma_crit^-1 is exactly +0.0 whenever zs <= zl (IEEE comparison: false for NaN), Dc = DH * integral *)
+Theorem C11_float_chain_identities : forall libm c a b,
+  (fflat c = true -> DmF libm c a b = Some (DcF c a b))
+  /\ DaF libm c a b = option_map (fun d => PrimFloat.div d (PrimFloat.add 1 b)) (DmF libm c a b)
+  /\ DlF libm c a b = option_map (fun d => PrimFloat.mul d (PrimFloat.add 1 b)) (DmF libm c a b)
+  /\ (PrimFloat.leb b a = true -> scinvF libm c a b = Some PrimFloat.zero)
+  /\ DcF c a b = PrimFloat.mul (fDH c) (ezinv_integralF c a b).
+Proof. exact float_chain_identities. Qed.
+
+(* gauleg's fill loop (cosmolib.c:173-221, bit-exact model): for EVERY libm cos oracle, every interval and every order the
+   weight table is exactly mirror-symmetric, and node lo and its mirror node n-1-lo are xm - xl*z and xm + xl*z of one and the
+   same Newton root z (so the per-run mirror check of the tables reduces to the arithmetic fact 0 - 1*z = -(0 + 1*z)) *)
+Theorem C11_gauleg_weights_symmetric : forall cosv x1 x2 npts x w,
+  gauleg cosv x1 x2 npts = Some (x, w) ->
+  length w = npts /\ forall j, (j < npts)%nat -> nth j w PrimFloat.zero = nth (npts - 1 - j) w PrimFloat.zero.
+Proof. exact gauleg_weights_symmetric. Qed.
+
+Theorem C11_gauleg_nodes_paired : forall cosv x1 x2 npts x w,
+  gauleg cosv x1 x2 npts = Some (x, w) ->
+  let xm := PrimFloat.div (PrimFloat.add x1 x2) 2 in let xl := PrimFloat.div (PrimFloat.sub x2 x1) 2 in
+  length x = npts /\
+  forall lo, (lo < (npts + 1) / 2)%nat -> (2 * lo <= npts - 1)%nat -> (lo < npts)%nat ->
+    exists z, nth (npts - 1 - lo) x PrimFloat.zero = PrimFloat.add xm (PrimFloat.mul xl z)
+              /\ ((2 * lo < npts - 1)%nat -> nth lo x PrimFloat.zero = PrimFloat.sub xm (PrimFloat.mul xl z)).
+Proof. exact gauleg_nodes_paired. Qed.
+
+(* non-vacuity: a 3-point rule computed by the model from start values 0.75 and 0.0625 (the oracle is keyed by the very argument
+   expression of the C code) *)
+Example C11_gauleg_nonvacuous :
+  let arg i := PrimFloat.div (PrimFloat.mul M_PI_F (PrimFloat.sub (fnat i) 0.25)) (PrimFloat.add (fnat 3) 0.5) in
+  match gauleg [(arg 1%nat, 0.75%float); (arg 2%nat, 0.0625%float)] (-1)%float 1%float 3 with
+  | Some (x, w) => length x = 3%nat /\ length w = 3%nat /\ PrimFloat.ltb (nth 0 x PrimFloat.zero) 0 = true
+  | None => False
+  end.
+Proof. vm_compute. repeat split. Qed.
+
+(* ================================================================ proof-deepening round: the params checker *)
+(* the checker the harness evaluates on the parameters an object reports decides exactly the documented rules: flat forces
+   omega_k = 0 and omega_l = 1 - omega_m (to rounding); omega_k, when given, alone decides flatness and is reported unchanged when
+   non-zero; omega_m is passed through (default 0.3); h overrides H0 (H0 = 100 h to rounding, default 100); DH * H0 = c *)
+From EsVerif.C11 Require Import Exec.
+Theorem C11_params_checker_decides_rules : forall k r, params_ok k r = true <-> params_rules k r.
+Proof. exact params_ok_spec. Qed.
+
+Example C11_params_rules_nonvacuous :
+  params_rules (mkKw None (Some 0x1.6666666666666p-1%float) None None None None)
+               (mkRep 0x1.18p+6%float 0x1.0babfd8adab9fp+12%float true 0x1.3333333333333p-2%float 0x1.6666666666666p-1%float 0%float).
+Proof. apply params_ok_spec. vm_compute. reflexivity. Qed.
